@@ -741,7 +741,10 @@ class Facts:
         # methods of an exported type / impls of an exported trait for an exported type are callable through the type
         b = self.bodies.get(path)
         if b is not None and b.rec.get("impl_self_adt"):
-            return b.rec["impl_self_adt"] in self.exported_items and (b.vis == "Public" or bool(b.impl_trait))
+            tr = b.impl_trait
+            if tr and tr.startswith("crate::") and tr not in self.exported_items:
+                return False          # a method of a crate-private trait cannot be named from outside, whatever type implements it
+            return b.rec["impl_self_adt"] in self.exported_items and (b.vis == "Public" or bool(tr))
         return False
 
     # ------------------------------------------------------------------ call graph (monomorphic)
